@@ -81,7 +81,7 @@ class SaveHarness:
 
         class Dispatcher:
             async def rpc_call(self, engine_id, message):
-                sid = int(message.method.lines[0].content.split()[1])
+                sid = int(message.method.last_author[1:])      # the save is identified by its author "u<id>"
                 fut = h.loop.create_future()
                 h.calls.append((sid, message.method.version, fut))
                 return await fut
@@ -106,7 +106,8 @@ class SaveHarness:
         self.results: list[tuple[int, str]] = []                  # (id, outcome) in completion order
         self.tasks: list[asyncio.Task] = []
         self.register()
-        self.agg._engine_data_map[self.eid].method = Mdl.Method(lines=[], version=v0, last_author="")
+        self.agg._engine_data_map[self.eid].method = Mdl.Method(
+            lines=[Mdl.MethodLine(id="l1", content="content 0")], version=v0, last_author="")
 
     def _register_msg(self):
         import openpectus.protocol.engine_messages as EM
@@ -142,13 +143,13 @@ class SaveHarness:
         self.loop.run_until_complete(self.handlers.handle_EngineDisconnected(self.eid))
         self.settle()
 
-    async def _runner(self, sid: int, base: int):
+    async def _runner(self, sid: int, base: int, content: int = 0):
         import openpectus.aggregator.routers.dto as Dto
         from openpectus.aggregator.routers import process_unit
         try:
             r = await process_unit.save_method(
                 user_name=f"u{sid}", user_id=f"id{sid}", user_roles=set(), unit_id=self.eid,
-                method_dto=Dto.Method(lines=[Dto.MethodLine(id="l1", content=f"save {sid}")], version=base,
+                method_dto=Dto.Method(lines=[Dto.MethodLine(id="l1", content=f"content {content}")], version=base,
                                       last_author=""),
                 agg=self.agg)
             self.results.append((sid, f"ok{r.version}"))
@@ -159,9 +160,9 @@ class SaveHarness:
             sent = any(c[0] == sid for c in self.calls)
             self.results.append((sid, "err" if sent else "rej"))
 
-    def start(self, sid: int, base: int):
+    def start(self, sid: int, base: int, content: int = 0):
         self.started.append((sid, base))
-        self.tasks.append(self.loop.create_task(self._runner(sid, base)))
+        self.tasks.append(self.loop.create_task(self._runner(sid, base, content)))
         self.settle()
 
     def pending(self) -> list[int]:
@@ -197,7 +198,7 @@ class SaveHarness:
 
     def apply(self, ev: list) -> None:
         if ev[0] == "start":
-            self.start(ev[1], ev[2])
+            self.start(ev[1], ev[2], ev[3] if len(ev) > 3 else 0)
         elif ev[0] == "reply":
             self.reply(ev[1], ev[2])
         elif ev[0] == "disconnect":
@@ -212,9 +213,11 @@ class SaveHarness:
 
     def observe(self) -> str:
         ed = self.agg.get_registered_engine_data(self.eid)
-        owner = "-"
-        if ed is not None and ed.method.lines and ed.method.lines[0].content.startswith("save "):
-            owner = ed.method.lines[0].content.split()[1]
+        owner, content = "-", "-"
+        if ed is not None and ed.method.last_author.startswith("u"):
+            owner = ed.method.last_author[1:]
+        if ed is not None and ed.method.lines and ed.method.lines[0].content.startswith("content "):
+            content = ed.method.lines[0].content.split()[1]
         done = {r[0] for r in self.results}
         pend = self.pending()
         blocked = [i for (i, _) in self.started if i not in done and i not in pend]
@@ -226,7 +229,7 @@ class SaveHarness:
 
         def sl(xs):
             return ";".join(xs) if xs else "-"
-        return (f"v={'-' if ed is None else ed.method.version} owner={owner} await={nl(pend)} wait={nl(blocked)} "
+        return (f"v={'-' if ed is None else ed.method.version} owner={owner} c={content} await={nl(pend)} wait={nl(blocked)} "
                 f"acc={sl(acc)} eng={nl([c[1] for c in self.calls])} res={sl([f'{i}:{o}' for (i, o) in self.results])}")
 
 
@@ -236,17 +239,18 @@ def probe() -> tuple[bool, bool, bool]:
     round trip is refused at once instead of waiting for the lock)."""
     h = SaveHarness(3)
     try:
-        h.start(0, 3)
-        h.start(1, 3)
+        h.start(0, 3, 1)
+        h.start(1, 3, 2)
         locked = 1 not in h.pending() and not any(i == 1 for (i, _) in h.results)
-        h.start(2, 2)
+        h.start(2, 2, 3)
         precheck = locked and any(i == 2 for (i, _) in h.results)
     finally:
         h.close()
     h = SaveHarness(3)
     try:
-        h.start(0, 3)
-        h.reply(0, "ok")
+        h.start(0, 3, 1)
+        if 0 in h.pending():
+            h.reply(0, "ok")
         h.disconnect()
         h.register()
         reset = h.version() == 0
@@ -278,7 +282,7 @@ def case_lines(case: dict, cfg: tuple[bool, bool, bool], mutant: bool = False) -
     ls = [f"{'initm' if mutant else 'init'}\t{case['v0']}\t{int(cfg[0])}\t{int(cfg[1])}\t{int(cfg[2])}"]
     for ev in case["events"]:
         if ev[0] == "start":
-            ls.append(f"start\t{ev[1]}\t{ev[2]}")
+            ls.append(f"start\t{ev[1]}\t{ev[2]}\t{ev[3] if len(ev) > 3 else 0}")
         elif ev[0] == "reply":
             ls.append(f"reply\t{ev[1]}\t{1 if ev[2] == 'ok' else 0}")
         else:
@@ -289,11 +293,13 @@ def case_lines(case: dict, cfg: tuple[bool, bool, bool], mutant: bool = False) -
 # ------------------------------------------------------------------------------------------------
 # schedules
 
-def enumerate_schedules(v0: int, bases: list[int], rng, outcomes=("ok", "err"), reconnects: int = 0) -> list[dict]:
+def enumerate_schedules(v0: int, bases: list[int], rng, outcomes=("ok", "err"), reconnects: int = 0,
+                        contents: list[int] | None = None) -> list[dict]:
     """All maximal schedules of the saves (id i has base bases[i]) with up to `reconnects` disconnect +
     re-registration cycles: DFS over the events the *implementation* has enabled (start of a request not yet
     started; answer to a pending round trip; disconnect while registered; register while not)."""
     leaves: list[dict] = []
+    contents = contents if contents is not None else [i + 1 for i in range(len(bases))]   # default: all different
 
     def enabled(events):
         h = SaveHarness(v0)
@@ -313,7 +319,7 @@ def enumerate_schedules(v0: int, bases: list[int], rng, outcomes=("ok", "err"), 
             if used >= reconnects:
                 return
         for i in unstarted:
-            dfs(events + [["start", i, bases[i]]])
+            dfs(events + [["start", i, bases[i], contents[i]]])
         for i in pend:
             for o in outcomes:
                 if o == "ok" and (i in doomed or not reg):
@@ -355,7 +361,12 @@ def random_schedule(rng, n: int, v0: int) -> dict:
                 cur = h.version()
                 cur = last_version if cur is None else cur
                 base = cur if rng.random() < 0.6 else max(0, cur + rng.choice([-2, -1, 1, 0 - cur]))
-                ev = ["start", nxt, base]
+                # what the save says: mostly an edit, now and then exactly what the method says already
+                same = h.agg.get_registered_engine_data(h.eid)
+                cur_c = 0
+                if same is not None and same.method.lines and same.method.lines[0].content.startswith("content "):
+                    cur_c = int(same.method.lines[0].content.split()[1])
+                ev = ["start", nxt, base, cur_c if rng.random() < 0.3 else rng.randrange(0, 4)]
                 nxt += 1
             elif c == "reply":
                 i = rng.choice(pend)
@@ -416,9 +427,12 @@ def _separated(case: dict, ids: list[int]) -> bool:
     return any(e[0] == "register" for e in case["events"][a:b])
 
 
-WITNESS = {"v0": 0, "events": [["start", 0, 0], ["start", 1, 0], ["reply", 0, "ok"], ["reply", 1, "ok"]]}
-RECONNECT_WITNESS = {"v0": 0, "events": [["start", 0, 0], ["reply", 0, "ok"], ["disconnect"], ["register"],
-                                         ["start", 1, 0], ["reply", 1, "ok"]]}
+WITNESS = {"v0": 0, "events": [["start", 0, 0, 1], ["start", 1, 0, 2], ["reply", 0, "ok"], ["reply", 1, "ok"]]}
+RECONNECT_WITNESS = {"v0": 0, "events": [["start", 0, 0, 1], ["reply", 0, "ok"], ["disconnect"], ["register"],
+                                         ["start", 1, 0, 2], ["reply", 1, "ok"]]}
+# a save that changes nothing (content 0 = what the method says) and an edit, both based on the same version
+SAME_CONTENT_WITNESS = {"v0": 3, "events": [["start", 0, 3, 0], ["reply", 0, "ok"], ["start", 1, 3, 2],
+                                            ["reply", 1, "ok"]]}
 
 
 def run(ctx: Check) -> int:
@@ -441,13 +455,23 @@ def run(ctx: Check) -> int:
                                     "stale_save_refused_in_front_of_the_lock": cfg[2]}
     rng = ctx.rng
 
-    cases: list[dict] = [WITNESS, RECONNECT_WITNESS] + [c for c in load_corpus("C31") if "events" in c]
+    cases: list[dict] = [WITNESS, RECONNECT_WITNESS, SAME_CONTENT_WITNESS] + [c for c in load_corpus("C31") if "events" in c]
     v0 = 3
     around = [v0 - 1, v0, v0 + 1]
     for bases in itertools.product(around, repeat=2):                      # all 2-save interleavings
         cases += enumerate_schedules(v0, list(bases), rng)
-    for bases in itertools.product(around, repeat=3):                      # all 3-save interleavings
+    three = list(itertools.product(around, repeat=3)) if ctx.tier == "thorough" else \
+        list(itertools.product([v0, v0 + 1], repeat=3)) + [(v0, v0, v0 - 1), (v0 - 1, v0, v0), (v0 - 1, v0 + 1, v0)]
+    for bases in three:                                                     # all 3-save interleavings
         cases += enumerate_schedules(v0, list(bases), rng)
+    # what the saves say: identical to the current method (0 at the start), identical to each other, different
+    n_c0 = len(cases)
+    for bases in [(v0, v0), (v0, v0 + 1)]:
+        for contents in [(0, 1), (1, 0), (0, 0), (1, 1)]:
+            cases += enumerate_schedules(v0, list(bases), rng, contents=list(contents))
+    for bases, contents in [((v0, v0 + 1, v0 + 1), (1, 1, 2)), ((v0, v0, v0), (0, 0, 1)), ((v0, v0 + 1, v0 + 1), (0, 0, 0))]:
+        cases += enumerate_schedules(v0, list(bases), rng, outcomes=("ok",), contents=list(contents))
+    n_content = len(cases) - n_c0
     # 2 saves with one engine disconnect + re-registration at every point; version 0 so that a reset is visible
     rec_bases = list(itertools.product([0, 1, 2], repeat=2)) if ctx.tier == "thorough" else \
         [(0, 0), (0, 1), (0, 2), (1, 0), (1, 2)]
@@ -464,13 +488,15 @@ def run(ctx: Check) -> int:
     for _ in range(ctx.n(150, 3000)):                                       # longer random schedules
         cases.append(random_schedule(rng, rng.randrange(2, 7), rng.randrange(0, 5)))
     ctx.extra["schedules"] = {"exhaustive_small_scopes": n_exh, "of_which_with_reconnect": n_rec,
+                              "of_which_with_unchanged_or_equal_contents": n_content,
                               "random_longer": len(cases) - n_exh}
-    ctx.rule = ("schedules = event lists over {start(id, base), reply(id, ok|internal error|caller error|exception), "
+    ctx.rule = ("schedules = event lists over {start(id, base, content), reply(id, ok|internal error|caller error|exception), "
                 "disconnect, register}; every maximal interleaving of 2 saves (bases in {v-1,v,v+1}^2) and of 3 saves "
-                "(bases in {v-1,v,v+1}^3); every interleaving of 2 saves (bases in {0,1,2}, quick: 5 base vectors) with "
+                "(quick: bases in {v,v+1}^3 and three stale mixes; thorough: {v-1,v,v+1}^3); every interleaving of 2 saves (bases in {0,1,2}, quick: 5 base vectors) with "
                 "one engine disconnect + re-registration at every point (thorough: also 4 saves and 3 saves with a "
                 "reconnect on selected base vectors with ok answers), enumerated over the events the real handlers have "
-                "enabled; plus random schedules of 2-6 saves mostly based on the then-current version with random "
+                "enabled; saves say different things by default, and for selected base vectors every combination of "
+                "'unchanged', 'equal to the other save' and 'different'; plus random schedules of 2-6 saves mostly based on the then-current version with random "
                 "reconnects. Non-trivial = at least two saves overlap, or a save is made after a re-registration.")
 
     facts_of: dict[int, list[dict]] = {}
@@ -498,6 +524,8 @@ def run(ctx: Check) -> int:
         ctx.count("overlapping" if overlap(c, out) else "sequential")
         if after_reconnect(c):
             ctx.count("save-after-reconnect")
+        if any(e[0] == "start" and len(e) > 3 and f" c={e[3]} " in ln for ln, e in zip(out, c["events"])):
+            ctx.count("save-with-unchanged-content")
         for e in c["events"]:
             if e[0] == "reply":
                 ctx.count("reply=" + e[2])
